@@ -274,11 +274,18 @@ func exec(h *rt.H, op string) string {
 		h.Count("perm:" + strings.Fields(out)[0])
 		return out
 	case "hash":
-		v, err := consistenthash.VerifHashFromString(unhex(w[4]), newHash(w[2], w[1]), []byte(unhex(w[3])))
-		if err != nil {
-			return "err"
-		}
-		return strconv.Itoa(v)
+		return func() (out string) {
+			defer func() {
+				if r := recover(); r != nil {
+					out = "panic"
+				}
+			}()
+			v, err := consistenthash.VerifHashFromString(unhex(w[4]), newHash(w[2], w[1]), []byte(unhex(w[3])))
+			if err != nil {
+				return "err"
+			}
+			return strconv.Itoa(v)
+		}()
 	case "nextprime":
 		i, _ := strconv.Atoi(w[1])
 		out := func() (s string) {
